@@ -467,6 +467,7 @@ pub fn property() -> Property {
                 name: "lock-step",
                 rule: "see property rule",
                 cases: (1_000_000, 5_000_000),
+                fuzz_decode: None,
                 strategy: strategy_a,
                 check: check_a,
                 required_classes: &["substituted", "failed-call", "failed-call-between-equal-labels", "settings-change-between-equal-labels", "re-use-first-fragment"],
@@ -475,6 +476,7 @@ pub fn property() -> Property {
                 name: "receiver-alone",
                 rule: "see property rule",
                 cases: (1_000_000, 5_000_000),
+                fuzz_decode: None,
                 strategy: strategy_b,
                 check: check_b,
                 required_classes: &["re-use-start-packet", "re-use-rejected", "re-use-resolved", "re-use-after-malformed-input"],
